@@ -1,3 +1,5 @@
+import BlockCiphers.Proofs.KuznyechikCompact
+import BlockCiphers.Proofs.Kuznyechik
 import BlockCiphers.Proofs.GenTables
 import BlockCiphers.Proofs.MagmaSpec
 import BlockCiphers.Proofs.BeltSpec
@@ -6,8 +8,72 @@ C07 — Kuznyechik, Magma/GOST 28147-89 and BelT conform to their standards
 GENERATED statement file (tools/gen_thm.py): every theorem below restates, verbatim, a theorem of a Proofs/ module
 and is proved by applying it.  ONLY property theorems and non-vacuity examples live in Thm/.
 Magma / Gost89 for ALL S-box sets (the set is a parameter, not required to be bijective) and BelT block: full.
-Kuznyechik: added when Proofs/Kuznyechik* are merged.
+Kuznyechik: all four backend models (compact, big_soft, SSE2, NEON) = GOST R 34.12-2015 (Spec/Kuznyechik.lean), both directions.
 -/
+
+namespace BC.Kuznyechik.Compact
+open BC.Spec.Kuznyechik
+/-- C07: the compact backend encrypts as GOST R 34.12-2015 §4.4.1, for every key and block -/
+theorem C07.kuz_compact_encrypt_eq_spec (key : BitVec 256) (b : BitVec 128) :
+    encrypt_block (expand key) b = Spec.Kuznyechik.encrypt key b :=
+  _root_.BC.Kuznyechik.Compact.encrypt_eq_spec key b
+end BC.Kuznyechik.Compact
+
+namespace BC.Kuznyechik.Compact
+open BC.Spec.Kuznyechik
+/-- C07: the compact backend decrypts as GOST R 34.12-2015 §4.4.2, for every key and block -/
+theorem C07.kuz_compact_decrypt_eq_spec (key : BitVec 256) (b : BitVec 128) :
+    decrypt_block (expand key) b = Spec.Kuznyechik.decrypt key b :=
+  _root_.BC.Kuznyechik.Compact.decrypt_eq_spec key b
+end BC.Kuznyechik.Compact
+
+namespace BC.Kuznyechik.Soft
+open BC.Spec.Kuznyechik
+theorem C07.kuz_soft_encrypt_eq_spec (key : BitVec 256) (b : BitVec 128) :
+    encrypt_block (expand_enc_keys key) b = Spec.Kuznyechik.encrypt key b :=
+  _root_.BC.Kuznyechik.Soft.encrypt_eq_spec key b
+end BC.Kuznyechik.Soft
+
+namespace BC.Kuznyechik.Sse2
+open BC.Spec.Kuznyechik
+theorem C07.kuz_sse2_encrypt_eq_spec (key : BitVec 256) (b : BitVec 128) :
+    encrypt_block (expand_enc_keys key) b = Spec.Kuznyechik.encrypt key b :=
+  _root_.BC.Kuznyechik.Sse2.encrypt_eq_spec key b
+end BC.Kuznyechik.Sse2
+
+namespace BC.Kuznyechik.Neon
+open BC.Spec.Kuznyechik
+theorem C07.kuz_neon_encrypt_eq_spec (key : BitVec 256) (b : BitVec 128) :
+    encrypt_block (expand_enc_keys key) b = Spec.Kuznyechik.encrypt key b :=
+  _root_.BC.Kuznyechik.Neon.encrypt_eq_spec key b
+end BC.Kuznyechik.Neon
+
+namespace BC.Kuznyechik.Soft
+open BC.Spec.Kuznyechik
+theorem C07.kuz_soft_decrypt_eq_spec (key : BitVec 256) (b : BitVec 128) :
+    decrypt_block (inv_enc_keys (expand_enc_keys key)) b = Spec.Kuznyechik.decrypt key b :=
+  _root_.BC.Kuznyechik.Soft.decrypt_eq_spec key b
+end BC.Kuznyechik.Soft
+
+namespace BC.Kuznyechik.Sse2
+open BC.Spec.Kuznyechik
+theorem C07.kuz_sse2_decrypt_eq_spec (key : BitVec 256) (b : BitVec 128) :
+    decrypt_block (inv_enc_keys (expand_enc_keys key)) b = Spec.Kuznyechik.decrypt key b :=
+  _root_.BC.Kuznyechik.Sse2.decrypt_eq_spec key b
+end BC.Kuznyechik.Sse2
+
+namespace BC.Kuznyechik.Neon
+open BC.Spec.Kuznyechik
+theorem C07.kuz_neon_decrypt_eq_spec (key : BitVec 256) (b : BitVec 128) :
+    decrypt_block (inv_enc_keys (expand_enc_keys key)) b = Spec.Kuznyechik.decrypt key b :=
+  _root_.BC.Kuznyechik.Neon.decrypt_eq_spec key b
+end BC.Kuznyechik.Neon
+
+namespace BC.GenTables
+open BC.Gen
+theorem C07.kuznyechik_P_eq : kuznyechik_P.toList = nats8 BC.Kuznyechik.P.toArray :=
+  _root_.BC.GenTables.kuznyechik_P_eq
+end BC.GenTables
 
 namespace BC.GenTables
 open BC.Gen
